@@ -1,7 +1,7 @@
 """C21  Repeated reads in a session return the same value or fail loudly."""
 import ast
 from ..loader import dotted, walk_no_nested, norm, head, calls_in
-from ..q import nodes_calling
+from ..q import nodes_calling, assign_pairs
 
 EXPLANATION = """
 Static clauses decided (necessary conditions of C21):
@@ -116,6 +116,26 @@ def run(ctx):
     ok = bool(adds) and bool(thr) and not any(a.id in rr for a in adds) and any(t.id in rr for t in thr)
     ctx.ob('C21-PHANTOM.appeared-item-detected', dra, adds[0].ast if adds else dra.node, ok,
            '' if ok else 'an item can be added to a fully loaded, non-volatile collection from database rows without UnrepeatableReadError')
+    # the sibling merge in Set.prefetch_load_all (many-to-many rows queried again by prefetch()): scenario "the collection is fully loaded, not volatile,
+    # and the query returned items the session does not hold" -- the merge `setdata |= items` is unreachable, UnrepeatableReadError is.
+    # (Set.load merges too, but only into collections it selected because they are NOT fully loaded.)
+    pf = repo.fn(CORE, 'Set.prefetch_load_all'); g = cg.cfg(pf)
+    def ap2_atom(text, node):
+        if text == 'items': return True
+        if text.endswith('.is_fully_loaded'): return True
+        if text == 'attr.is_volatile': return False
+        if text == 'phantoms': return False
+        if text.startswith('setdata') and text.endswith(' is None'): return False
+        if text.startswith('setdata') and text.endswith(' is not None'): return True
+        return None
+    eo2 = scenario_edges(g, pf.node, ap2_atom)
+    merges = [x for x in g.nodes if x.kind == 'stmt' and isinstance(x.ast, ast.AugAssign) and isinstance(x.ast.op, ast.BitOr) and norm(x.ast.value) == 'items']
+    rr = g.reach([g.entry], edge_ok=eo2)
+    thr = throws(g, 'UnrepeatableReadError')
+    ok = bool(merges) and not any(m_.id in rr for m_ in merges) and any(t.id in rr for t in thr)
+    ctx.ob('C21-PHANTOM.appeared-item-detected-by-prefetch', pf, merges[0].ast if merges else pf.node, ok,
+           '' if ok else 'prefetch merges newly appeared many-to-many items into a collection that is already fully loaded (and observed) without UnrepeatableReadError; '
+           'its sibling Set.db_reverse_add refuses exactly that')
 
     # ---------------------------------------------------------------- SERIAL
     for modname, qual in (('pony.orm.core', 'Entity.to_dict'), ('pony.orm.serialization', 'Bag._process_object')):
@@ -155,9 +175,68 @@ def run(ctx):
         ctx.ob('C21-OBSERVE.one-to-one-read-recorded-on-the-storing-side', ag, r.ast, ok,
                '' if ok else 'Attribute.__get__ returns the partner of a one-to-one link stored in the partner\'s column without recording the read on the partner '
                '(the attribute has no column, so its own read bit is 0): after another transaction moves the partner, a reload changes the value silently', node=r.ast)
+    # ---------------------------------------------------------------- GROW
+    # what was observed stays recorded until the session ends: the read marks of an existing object only grow.  Every statement of core.py that
+    # rebinds <obj>._rbits_ is `|=`, or assigns a superset (`x._rbits_ | ...`, the full mask _all_bits_except_volatile_), or initialises a fresh
+    # object (constant 0 / None in the function that creates it), or is the one listed exception.
+    GROW_EXC = {('Entity._update_dbvals_', '&='): "after INSERT an attribute left to the database default has no known database value: its (vacuous) read mark is dropped "
+                                                  "together with the value, the next access loads it"}
+    ngrow = 0
+    for fn in repo.rule_funcs():
+        if fn.mod.name != CORE: continue
+        creates = any(dotted(c.func) == 'object.__new__' for c in calls_in(fn.node))
+        for st in walk_no_nested(fn.node):
+            tg = []
+            if isinstance(st, ast.AugAssign): tg = [(st.target, None)]
+            elif isinstance(st, ast.Assign): tg = list(assign_pairs(st))
+            for t, v in tg:
+                if not (isinstance(t, ast.Attribute) and t.attr == '_rbits_'): continue
+                ngrow += 1
+                owner = norm(t.value)
+                if isinstance(st, ast.AugAssign):
+                    ok = isinstance(st.op, ast.BitOr); form = {ast.BitOr: '|=', ast.BitAnd: '&=', ast.BitXor: '^='}.get(type(st.op), 'op=')
+                else:
+                    form = '='
+                    ok = v is not None and (
+                        (isinstance(v, ast.BinOp) and isinstance(v.op, ast.BitOr) and any(norm(x) == owner + '._rbits_' for x in (v.left, v.right)))
+                        or (isinstance(v, ast.Attribute) and v.attr == '_all_bits_except_volatile_')
+                        or (creates and isinstance(v, ast.Constant) and v.value in (0, None))
+                        or (creates and isinstance(v, ast.Attribute) and v.attr == '_wbits_'))
+                    if not ok and creates and isinstance(st.value, ast.Constant) and st.value.value in (0, None): ok = True        # obj._rbits_ = obj._wbits_ = 0
+                exc = GROW_EXC.get((fn.qual, form))
+                if not ok and exc:
+                    ctx.exception('C21-GROW', '%s %s' % (fn.qual, form), exc); ok = True
+                ctx.ob('C21-GROW.read-marks-of-an-existing-object-only-grow', fn, st, ok,
+                       '' if ok else '`%s` replaces or shrinks the read marks of an object the session may already have observed: a later refresh of an attribute read earlier '
+                       'overwrites the observed value without UnrepeatableReadError' % norm(st)[:80], node=st, expected='obj._rbits_ |= ...')
+    ctx.floor('C21-GROW', ngrow, 6, 'statements that rebind _rbits_')
+    # every function that loads a collection completely and hands out its size or content records the read of each item, like Set.copy
+    # (len(group.students) is as much an observation of the whole collection as iterating over it)
+    nfull = 0
+    for clsname in ('Set', 'SetInstance'):
+        for f in repo.cls(CORE, clsname).methods.values():
+            g = cg.cfg(f)
+            loads = [x for x in g.nodes if x.kind == 'stmt' and x.ast is not None and any(isinstance(c.func, ast.Attribute) and c.func.attr == 'load' and len(c.args) == 1 and not c.keywords for c in x.calls())]
+            if not loads: continue
+            rets = [x for x in g.nodes if x.kind == 'stmt' and isinstance(x.ast, ast.Return) and x.ast.value is not None and any(
+                isinstance(c, ast.Call) and dotted(c.func) in ('len', 'set', 'list', 'tuple', 'sorted', 'frozenset', 'iter') and c.args and dotted(c.args[0]) == 'setdata' for c in ast.walk(x.ast.value))]
+            for r in rets:
+                nfull += 1
+                marks = [x for x in g.nodes if x.kind == 'stmt' and isinstance(x.ast, ast.AugAssign) and isinstance(x.ast.op, ast.BitOr) and isinstance(x.ast.target, ast.Attribute) and x.ast.target.attr == '_rbits_']
+                gov = [t for t in g.nodes if t.kind == 'test' and 'reverse.is_collection' in norm(t.ast) and any(m.id in g.reach([t]) for m in marks)]
+                ok = bool(gov) and g.dominated(r, gov)
+                ctx.ob('C21-OBSERVE.full-load-observer-records-the-read', f, r.ast, ok,
+                       '' if ok else '%s loads the whole collection and returns `%s` without setting the read bit of each item\'s reverse attribute: after another transaction '
+                       'moves an item away, a refresh shrinks the collection silently' % (f.qual, norm(r.ast.value)), node=r.ast, expected='go through Set.copy()')
+    ctx.floor('C21-OBSERVE', nfull, 1, 'functions that fully load a collection and return its size or content')
 
 
 MUTANTS = [
+    dict(id='C21-pf', file='pony/orm/core.py', fn='Set.prefetch_load_all', old="                    if items and setdata2.is_fully_loaded and not attr.is_volatile: throw(UnrepeatableReadError,", new="                    if items and setdata2.is_fully_loaded and attr.is_volatile: throw(UnrepeatableReadError,", expect='C21-PHANTOM.appeared-item-detected-by-prefetch'),
+    dict(id='C21-len', file='pony/orm/core.py', fn='SetInstance.__len__', old="        return len(wrapper.copy())  # the whole collection is observed: copy() records the read of every item",
+         new="        attr = wrapper._attr_; obj = wrapper._obj_\n        setdata = obj._vals_.get(attr)\n        if setdata is None or not setdata.is_fully_loaded: setdata = attr.load(obj)\n        return len(setdata)", expect='C21-OBSERVE.full-load'),
+    dict(id='C21-grow1', file='pony/orm/core.py', fn='Entity._save_updated_', old="        obj._rbits_ |= obj._wbits_ & obj._all_bits_except_volatile_", new="        obj._rbits_ = obj._wbits_ & obj._all_bits_except_volatile_", expect='C21-GROW'),
+    dict(id='C21-grow2', file='pony/orm/core.py', fn='Entity._save_updated_', old="        obj._rbits_ |= obj._wbits_ & obj._all_bits_except_volatile_", new="        obj._rbits_ = obj._rbits_ | (obj._wbits_ & obj._all_bits_except_volatile_)", expect='C21-GROW', benign=True),
     dict(id='C21-o2o', file='pony/orm/core.py', fn='Attribute.__get__', old="            if wbits is not None and not wbits & bit: value._rbits_ |= bit", new="            if wbits is not None and not wbits & bit: obj._rbits_ |= bit", expect='C21-OBSERVE.one-to-one'),
     dict(id='C21-s1', file='pony/orm/core.py', fn='Entity.to_dict', old="            value = attr.__get__(obj)\n", new="            value = attr.get(obj) if not attr.is_collection else attr.__get__(obj)\n", expect='C21-SERIAL'),
     dict(id='C21-m1', file='pony/orm/core.py', fn='Set.copy', old='        if setdata is None or not setdata.is_fully_loaded: setdata = attr.load(obj)\n',
